@@ -2,7 +2,7 @@ package main
 
 func init() {
 	register("C10", &PropDef{
-		Explain: "Mostly a statement about runtime values; decided are sibling-agreement and ownership clauses across the three bundled stores: (R1) conformance table (types.Implements): memory, SQLite and durable-streams implement EventStore, memory and SQLite also EventStoreStreamer and SubscriptionStore; (R2) the next offset returned on a success return of each Read depends on the last event placed in the result whenever the function can cut its result to the limit; per-event offsets are store-issued positions, not synthesised from a chunk position; (R3) an offset that a bundled Append builds from an integer uses a fixed-width zero-padded decimal of at least 19 digits (server-issued opaque offsets are a table exemption); (R4) isolation: no run-time writer of package-level state, and the data source name handed to the database opener depends on the store's own path or a per-store unique value on every alternative; (R5) append-only ownership: the in-memory log is written only as append(log, x) in Append and its elements are never stored to; SQL on `events` is plain INSERT with database-assigned positions and SELECT, on `subscription_positions` the exact upsert and SELECT; no destructive SQL; (R6) siblings agree on the read predicate (strictly after the offset, in log order; limit<=0 unlimited; unknown subscription id is OffsetOldest); the memory store takes its offset and appends under one write lock; SQLite's Append binds the event's field values unchanged. Not decided: type/data/timestamp fidelity through the driver and JSON, uniqueness of server offsets, equality of streamed and paged sequences as values.",
+		Explain: "Mostly a statement about runtime values; decided are sibling-agreement and ownership clauses across the three bundled stores: (R1) conformance table (types.Implements): memory, SQLite and durable-streams implement EventStore, memory and SQLite also EventStoreStreamer and SubscriptionStore; (R2) the next offset returned on a success return of each Read depends on the last event placed in the result whenever the function can cut its result to the limit; per-event offsets are store-issued positions, not synthesised from a chunk position; (R3) an offset that a bundled Append builds from an integer uses a fixed-width zero-padded decimal of at least 19 digits (server-issued opaque offsets are a table exemption); (R4) isolation: no run-time writer of package-level state, and the data source name handed to the database opener depends on the store's own path or a per-store unique value on every alternative; (R5) append-only ownership: the in-memory log is written only as append(log, x) in Append and its elements are never stored to; SQL on `events` is plain INSERT with database-assigned positions and SELECT, on `subscription_positions` the exact upsert and SELECT; no destructive SQL; (R6) siblings agree on the read predicate (strictly after the offset, in log order; limit<=0 unlimited; unknown subscription id is OffsetOldest); the memory store takes its offset and appends under one write lock; SQLite's Append binds the event's field values unchanged. Not decided: type/data/timestamp fidelity through the driver and JSON, uniqueness of server offsets, equality of streamed and paged sequences as values. Added: (R2) the next offset is the last returned event's (path rule on the incremental idiom, positional rule otherwise); (R6) fresh decode targets in read loops; the read predicate is evaluated on the abstract cases before/at/after the start offset; (R7) no store function turns an error it found into a nil error result.",
 		Run: func(c *Ctx) {
 			c.Rule("C10.R1", "conformance table of the bundled stores")
 			c.Rule("C10.R2", "next offset follows the returned events; event offsets are store-issued")
@@ -62,7 +62,7 @@ func init() {
 		},
 	})
 	register("C11", &PropDef{
-		Explain: "Structural necessary conditions of 'Replay delivers every event after the offset, or says that it did not': (R1) row-iteration error discipline: for every loop driven by Next() of a value that also has Err() (three sites in the SQLite store), every path from Next()==false to a return passes a tested Err() on it; (R2) Replay returns nil only on exhaustion: streaming path — the range-over-func body continues only when the yielded error is nil and the callback, called once on the yielded event, succeeded, and every early stop records a non-nil error; paged path — every exit of the paging loop that can reach `return nil` is the empty-page exit, the Read error and callback error arms return errors, every event of a page reaches the callback, the cursor is the store's returned next offset, a non-advancing cursor ends with an error, and the context is polled before every page; (R3) iterator protocol of the bundled streams: no yield after a yielded error or a false answer, and every error found inside (offset parse, query, scan, close, cancelled context) reaches yield(nil, err) before the iterator ends; (R4) replay is read-only: no static call path from Replay/ReplayWithUpcast/the replay callback of SubscribeWithReplay to Append, the persist function, PublishContext or the dispatch function; Append has one caller; (R5) = C10.R2 for stores used through the paged path. Not decided: completeness for every (batch size, length, failure position) as executions; store query semantics.",
+		Explain: "Structural necessary conditions of 'Replay delivers every event after the offset, or says that it did not': (R1) row-iteration error discipline: for every loop driven by Next() of a value that also has Err() (three sites in the SQLite store), every path from Next()==false to a return passes a tested Err() on it; (R2) Replay returns nil only on exhaustion: streaming path — the range-over-func body continues only when the yielded error is nil and the callback, called once on the yielded event, succeeded, and every early stop records a non-nil error; paged path — every exit of the paging loop that can reach `return nil` is the empty-page exit, the Read error and callback error arms return errors, every event of a page reaches the callback, the cursor is the store's returned next offset, a non-advancing cursor ends with an error, and the context is polled before every page; (R3) iterator protocol of the bundled streams: no yield after a yielded error or a false answer, and every error found inside (offset parse, query, scan, close, cancelled context) reaches yield(nil, err) before the iterator ends; (R4) replay is read-only: no static call path from Replay/ReplayWithUpcast/the replay callback of SubscribeWithReplay to Append, the persist function, PublishContext or the dispatch function; Append has one caller; (R5) = C10.R2 for stores used through the paged path. Not decided: completeness for every (batch size, length, failure position) as executions; store query semantics. (R6) no read function of the bus or the stores turns an error it found into a nil result (a failed read is not an empty page); R5 also decides that the next offset is that of the last returned event.",
 		Run: func(c *Ctx) {
 			c.Rule("C11.R1", "row loops consult Err() after Next() returned false")
 			c.Rule("C11.R2", "Replay returns nil only on exhaustion (stream and paged paths)")
@@ -99,7 +99,7 @@ func init() {
 		},
 	})
 	register("C14", &PropDef{
-		Explain: "The durability guarantee itself is SQLite's; decided are the conditions under which ebu gets it: (R1) Append and SaveOffset return nil only on paths dominated by the synchronous Exec of their statement with its error tested nil, on the database handle directly (auto-commit; an explicit transaction would have to be committed first); (R2) the pragmas applied at open set journal_mode to a crash-safe mode (not OFF/MEMORY), do not switch synchronous off, and every pragma error is propagated out of New; (R3) migration: every DDL string is CREATE … IF NOT EXISTS, steps are guarded by the stored schema version, schema statements run through a transaction that is committed on success (Commit's error returned) and rolled back by a deferred call whenever the function's error result is non-nil; (R4) no destructive SQL on the log or the saved positions, AUTOINCREMENT positions assigned by the database, and no call in the package that deletes, truncates, renames or overwrites files (WAL/SHM side files hold acknowledged commits after an unclean shutdown). Not decided: behaviour under SIGKILL, WAL recovery, fsync policy effects.",
+		Explain: "The durability guarantee itself is SQLite's; decided are the conditions under which ebu gets it: (R1) Append and SaveOffset return nil only on paths dominated by the synchronous Exec of their statement with its error tested nil, on the database handle directly (auto-commit; an explicit transaction would have to be committed first); (R2) the pragmas applied at open set journal_mode to a crash-safe mode (not OFF/MEMORY), do not switch synchronous off, and every pragma error is propagated out of New; (R3) migration: every DDL string is CREATE … IF NOT EXISTS, steps are guarded by the stored schema version, schema statements run through a transaction that is committed on success (Commit's error returned) and rolled back by a deferred call whenever the function's error result is non-nil; (R4) no destructive SQL on the log or the saved positions, AUTOINCREMENT positions assigned by the database, and no call in the package that deletes, truncates, renames or overwrites files (WAL/SHM side files hold acknowledged commits after an unclean shutdown). Not decided: behaviour under SIGKILL, WAL recovery, fsync policy effects. (R5) no store function reports success after a database call failed; R4 also covers fresh decode targets (the recovered log is the acknowledged sequence, object by object).",
 		Run: func(c *Ctx) {
 			c.Rule("C14.R1", "acknowledge only after the statement completed without error (auto-commit)")
 			c.Rule("C14.R2", "crash-safe journal configuration; pragma errors propagated")
